@@ -19,6 +19,11 @@ def declare(w, item_kind="str"):
     s.declare("ChannelFile", "_proxyclose", BOOL)
     s.declare("ChannelFileRead", "_buffer", OPT(STR))
     # file view of a channel (ghost): concatenation of the items still to be received, and how many there are
+    # the channel's receive-closed event (set in the closed AND in the send-only state: it says nothing about whether the channel may still send)
+    s.declare("Channel", "_receiveclosed", REF("Event"))
+    s.declare("Event", "$set", BOOL, ghost=True)
+    s.set_bases("Event", ["object"])
+    w.add(Contract("model:Event.is_set", {"self": REF("Event")}, cases=[Case("ok", restype=BOOL, post=lambda a, h, h2, r: [r == h("Event", a.self, "$set")])], trusted=True))
     s.declare("Channel", "$rest", STR, ghost=True)
     s.declare("Channel", "$npending", INT, ghost=True)
     s.declare("Channel", "$closecalls", INT, ghost=True)
